@@ -196,6 +196,24 @@ def ob_undefined_stays_undefined(b2: bool) -> bool:
     return out == 'E[M][False]|U[M]|' + ('V[M]' if b2 else '') and log == ['c2']
 
 
+T_REPEAT = cooked('<dtml-if c1>A<dtml-elif c2>B<dtml-elif c1>C<dtml-elif c2>D<dtml-else>E<dtml-var c1 null="">'
+                  '</dtml-if>|<dtml-if c1>A<dtml-elif c2>B<dtml-else c1>N</dtml-if>|<!--#if c2-->X<!--#elif c1-->Y<!--#else c2-->Z<!--#/if-->')
+
+
+def ob_repeated_names(b1: bool, b2: bool) -> bool:
+    """each named condition is evaluated at most once per conditional even when the chain names it again; an else tag may
+    repeat the if variable (old spelling) after elif tags"""
+    log = []
+    out = T_REPEAT(c1=Cond(log, 'c1', 'v' if b1 else ''), c2=Cond(log, 'c2', 'w' if b2 else ''))
+    first = 'A' if b1 else ('B' if b2 else 'E')
+    second = 'A' if b1 else ('B' if b2 else 'N')
+    third = 'X' if b2 else ('Y' if b1 else 'Z')
+    elog = ['c1'] + ([] if b1 else ['c2'])          # first conditional
+    elog += ['c1'] + ([] if b1 else ['c2'])         # second
+    elog += ['c2'] + ([] if b2 else ['c1'])         # third
+    return out == first + '|' + second + '|' + third and log == elog
+
+
 class Boom(Exception):
     pass
 
@@ -232,6 +250,7 @@ OBLIGATIONS += [
     Ob('epfs_if_unless_call', ob_epfs, [], timeout=60, data='b1,d1,b2,b3', selectors='EPFS if/else, unless, call', stubs='relib-escape'),
     Ob('falsy_kinds_cached', ob_falsy_kinds_cached, ['0 <= kind <= 4'], timeout=100, data='kind of falsy value, b2', selectors='if/else, unless, elif bodies re-referencing the condition'),
     Ob('undefined_stays_undefined', ob_undefined_stays_undefined, [], timeout=100, data='b2', selectors='undefined condition name referenced inside else / unless / elif bodies'),
+    Ob('repeated_names_once', ob_repeated_names, [], timeout=100, data='b1, b2', selectors='chains naming a condition twice; else repeating the if variable after elif; SSI spelling'),
     Ob('foreign_keyerror_propagates', ob_foreign_keyerror, [], timeout=60, data='-', selectors='KeyError(other name) from a condition'),
 ]
 ASSUMES = ['namespace stubs never raise KeyError(<name being looked up>): render_blocks_ reads that as "undefined" by design']
